@@ -358,6 +358,27 @@ def collision_worker(task):
     return st_
 
 
+def after_rekey_worker(task):
+    """an IKE_SA rekey by either end completes; the first exchange on the successor (Message ID 0) is any trigger by either end,
+    delivered whole / with its response lost / with its request lost once"""
+    combos, cfgp = task
+    st_ = Stats()
+    for (s1, t, s2, loss) in combos:
+        ops = [to_op('rekey_ike', s1, 0)] + [['deliver', 0]] * 4 + [to_op(t, s2, 0)]
+        ops += {'none': [['deliver', 0], ['deliver', 0]], 'response': [['deliver', 0], ['drop', 0]], 'request': [['drop', 0]]}[loss]
+        case = {'cfg': cfgp, 'first': 'a', 'lossy': loss != 'none', 'ops': ops}
+        fails, info, s = run_case(case)
+        st_.case(fingerprint(case, info), nontrivial=True, klass=['after-ike-rekey', f'after-ike-rekey:loss={loss}'],
+                 sample={'ops': ops} if loss != 'none' else None)
+        for f in fails:
+            f.case = case
+            if common.KNOWN.is_open('C09', f.sig):
+                st_.excluded[f.sig] += 1
+            elif not any(g.sig == f.sig for g in st_.failures):
+                st_.failures.append(f)
+    return st_
+
+
 def walk_worker(task):
     n, seed, lossy = task
     ctx = common.Ctx('C09', 'quick', seed)
@@ -369,6 +390,8 @@ def walk_worker(task):
 def _dispatch(t):
     if t[0] == 'col':
         return collision_worker(t[1])
+    if t[0] == 'after':
+        return after_rekey_worker(t[1])
     return exhaustive_worker(t[1]) if t[0] == 'ex' else walk_worker(t[1])
 
 
@@ -388,6 +411,11 @@ def run(ctx):
         tasks.append(('col', (cpairs[i:i + 3], nbits, {'dh': '19'})))
     ctx.extra['collision_orders'] = (f'every ordered pair of triggers at opposite ends ({len(cpairs)}) x every sequence of {nbits} '
                                      f'deliver-0 / deliver-1 choices, then the drain')
+    combos = [(s1, t, s2, loss) for s1 in 'ab' for t in TRIGGERS for s2 in 'ab' for loss in ('none', 'response', 'request')]
+    for cfgp in ({'dh': '19'}, {'dh': '19', 'pfs': '19', 'mode': 'tunnel', 'proto': 'ah', 'n': 2}):
+        for i in range(0, len(combos), 9):
+            tasks.append(('after', (combos[i:i + 9], cfgp)))
+    ctx.extra['after_ike_rekey'] = f'{2 * len(combos)} directed cases: first exchange on the successor of a rekeyed IKE_SA x loss'
     for i in range(common.NCPU):
         tasks.append(('walk', (n_walk, ctx.seed * 64 + i, i % 2 == 1)))
     for st_ in pmap(_dispatch, tasks):
